@@ -7307,6 +7307,14 @@ static int _fetch_as_buffer(PyObject *x, Py_buffer *view, int writable_only)
         }
         view->buf = ((CDataObject *)x)->c_data;
         view->obj = NULL;
+        /* the size in bytes of an array of known length; a pointer has
+           none (-1, which never matches a slice length) */
+        view->len = -1;
+        if (ct->ct_flags & CT_ARRAY) {
+            Py_ssize_t length = get_array_length((CDataObject *)x);
+            if (length >= 0 && ct->ct_itemdescr->ct_size >= 0)
+                view->len = length * ct->ct_itemdescr->ct_size;
+        }
         return 0;
     }
     else {
